@@ -1,5 +1,5 @@
 (* Options.WithDefaults of options.go, translated statement by statement on every run
-   (gen/GemOpts.v), is the model's with_defaults (C17). *)
+   (gen/GemOpts.v, with whatever helper functions it calls), is the model's with_defaults (C17). *)
 From Coq Require Import List Bool ZArith Lia ZifyBool.
 Import ListNotations.
 From Rosed Require Import Base.Res Base.Utf8 Gem.Segment Gem.GString Model.Manip Model.Options Inst.GoRt Inst.GoTac gen.Consts gen.GemOpts Inst.GoConsts.
@@ -11,10 +11,16 @@ Context `{Classifier}.
 Theorem go_with_defaults_eq o : go_WithDefaults o = with_defaults o.
 Proof.
   destruct go_defaults_eq as (Ei & El & Ep & Ec).
-  unfold go_WithDefaults, with_defaults. rewrite ?Ei, ?El, ?Ep, ?Ec.
-  destruct o as [ind ls nt ps pr jl bo he cs]. cbn [o_indent o_linesep o_notrailing o_parasep o_preserve o_justlast o_borders o_headers o_charset].
-  destruct ls, ind, ps; cbn [str_empty set_o_linesep set_o_indent set_o_parasep set_o_charset o_indent o_linesep o_notrailing o_parasep o_preserve o_justlast o_borders o_headers o_charset negb];
-  go_eq.
+  unfold go_WithDefaults, with_defaults. autounfold with go_defs. rewrite ?Ei, ?El, ?Ep, ?Ec.
+  destruct o as [ind ls nt ps pr jl bo he cs].
+  (* the three plain strings: empty or not *)
+  destruct ls, ind, ps;
+  cbv zeta; unfold set_o_linesep, set_o_indent, set_o_parasep, set_o_charset;
+  cbn [str_empty o_indent o_linesep o_notrailing o_parasep o_preserve o_justlast o_borders o_headers o_charset negb];
+  (* the table character set: shorter, longer or as long as the default *)
+  repeat (cbv zeta beta iota; split_if); cbv zeta beta iota;
+  try reflexivity; try (exfalso; lia);
+  repeat (f_equal; try lia; try reflexivity).
 Qed.
 
 End GoOpts.
